@@ -31,7 +31,7 @@ theorem admissible_of_exact (file : List Line) (h : Hunk) (iw : Bool) (maxFuzz :
   simp only [fuzzPair_zero]
   have hlen := oldOf_length_le h.lines
   simp only [Bool.and_eq_true, decide_eq_true_eq, List.all_eq_true, List.mem_range, Bool.or_eq_true]
-  refine ⟨⟨⟨⟨by simpa using hF, by omega⟩, by omega⟩, hle⟩, ?_⟩
+  refine ⟨⟨⟨⟨⟨by simpa using hF, by omega⟩, by omega⟩, by omega⟩, by omega⟩, ?_⟩
   intro i hi
   right
   have h1 : (oldOf h.lines)[i]? = file[p + i]? := by
@@ -228,8 +228,11 @@ theorem defineLoop_context_outside (file : List Line) (sym : Bytes) (pl : PatchL
     defineLoop file sym (pl :: rest) cur st w =
       defineLoop file sym rest (cur + 1) .outside
         ((if st ≠ .outside then w.directive dEndif (terminatorOf l) else w).line (.fromFile cur l)) := by
+  have hne : (cur == file.length) = false := by
+    have := (List.getElem?_eq_some_iff.1 hl).1
+    simp; omega
   rw [defineLoop.eq_def]
-  simp [hop, hl]
+  simp [hop, hl, hne]
 
 /-- all three diff emitters and both orders of `hunk_from_context_parts` only produce grouped hunks: a run of
     deletions followed by a run of additions is grouped (a fact about `grouped`; `C20_merge` no longer needs it) -/
